@@ -308,20 +308,30 @@ impl<L: LSPLang> Backend<L> {
         ],
       );
     }
-    let mut versioned = self.map.get_mut(uri)?;
-    // skip old version update
-    if versioned.version > text_doc.version {
-      return None;
-    }
-    *versioned = VersionedAst {
-      version: text_doc.version,
-      root,
+    // never hold the map entry across an `.await`: handlers of other notifications run
+    // interleaved on the same task and block forever on this shard's lock
+    let diagnostics = {
+      let mut versioned = self.map.get_mut(uri)?;
+      // skip old version update
+      if versioned.version > text_doc.version {
+        return None;
+      }
+      *versioned = VersionedAst {
+        version: text_doc.version,
+        root,
+      };
+      self
+        .get_diagnostics(&text_doc.uri, &versioned)
+        .unwrap_or_default()
     };
     self
       .client
       .log_message(MessageType::LOG, "Publishing diagnostics.")
       .await;
-    self.publish_diagnostics(text_doc.uri, &versioned).await;
+    self
+      .client
+      .publish_diagnostics(text_doc.uri, diagnostics, Some(text_doc.version))
+      .await;
     Some(())
   }
   async fn on_close(&self, params: DidCloseTextDocumentParams) {
